@@ -9,10 +9,11 @@ import (
 )
 
 // The harness for rpc/v10 and rpc/v9 (same handler signatures); the chain model is in model.go.
-func VxC08BlockIdentifiers() {
-	vx.Bound("stored chain of 1..3 blocks (hashes symbolic and distinct, transaction counts symbolic in 0..2, probe contract deployed or not per block with a symbolic nonce); L1 head absent or present with a symbolic 64-bit number; block id in {latest, l1_accepted, number n symbolic, hash x symbolic}; handlers BlockNumber, BlockHashAndNumber, BlockTransactionCount, BlockWithTxHashes, Nonce, ClassHashAt")
+// vxScenario builds the symbolic chain, handler and block identifier, and says which block the
+// identifier denotes according to the model.
+func vxScenario() (h *Handler, c *vxChain, id BlockID, want int, found bool) {
 	nb := 1 + vx.Choice("blocks", 3)
-	c := &vxChain{}
+	c = &vxChain{}
 	for i := 0; i < nb; i++ {
 		b := vxBlock{hash: vxFeltIn("hash"), txCount: vx.U64("txcount"), deployed: vx.Bool("deployed"), nonce: vxFeltIn("nonce")}
 		vx.Assume(b.txCount <= 2)
@@ -24,12 +25,10 @@ func VxC08BlockIdentifiers() {
 	if vx.Bool("hasL1") {
 		c.hasL1, c.l1 = true, vx.U64("l1")
 	}
-	h := &Handler{bcReader: c}
+	h = &Handler{bcReader: c}
 	head := nb - 1
 
 	// the denoted block according to the model
-	var id BlockID
-	want, found := 0, false
 	switch vx.Choice("id", 4) {
 	case 0:
 		id = BlockIDLatest()
@@ -63,6 +62,13 @@ func VxC08BlockIdentifiers() {
 		}
 	}
 
+	return h, c, id, want, found
+}
+
+func VxC08BlockIdentifiers() {
+	vx.Bound("stored chain of 1..3 blocks (hashes symbolic and distinct, transaction counts symbolic in 0..2, probe contract deployed or not per block with a symbolic nonce); L1 head absent or present with a symbolic 64-bit number; block id in {latest, l1_accepted, number n symbolic, hash x symbolic}; handlers BlockNumber, BlockHashAndNumber, BlockTransactionCount, BlockWithTxHashes, Nonce, ClassHashAt")
+	h, c, id, want, found := vxScenario()
+	head := len(c.blocks) - 1
 	num, rerr := h.BlockNumber()
 	vx.Assert(rerr == nil && num == uint64(head), "block-number-is-the-head")
 	hn, rerr := h.BlockHashAndNumber()
